@@ -523,17 +523,24 @@ def doctest_source(t):
     return src
 
 
+def doctest_name(t, modname=None):
+    """The dotted name (DocTestCase) / the file path (DocFileCase)."""
+    if t['dt'] == 'file':
+        return t.get('dfile') or ('/vtw/test_%s.txt' % t['n'])
+    return t.get('dname') or ('%s.test_d_%s' % (modname or MOD, t['n']))
+
+
 def make_doctest(t, modname, layers):
     msg = t.get('msg') or 'text'
     globs = {'vt_emit': _dt_emit, 'vt_msg': msg if t['s'] != 'pass' else (msg.replace('\n', ' ') or 'x')}
     kind = t['dt']
     if kind == 'file':
-        path = t.get('dfile') or ('/vtw/%s.txt' % t['n'])
+        path = doctest_name(t, modname)
         name = os.path.basename(path)
         dt = doctest.DocTestParser().get_doctest(doctest_source(t), globs, name, path, 0)
         case = VTDocFileCase(dt)
     else:
-        name = t.get('dname') or ('%s.d_%s' % (modname, t['n']))
+        name = doctest_name(t, modname)
         dt = doctest.DocTestParser().get_doctest(doctest_source(t), globs, name, '/vtw/tests.py', 0)
         case = VTDocTestCase(dt)
     case._vt = t
